@@ -24,6 +24,11 @@ CLAIMED = {
             "Generated call trees (all call kinds, creates, value transfers, storage writes/logs before/inside/after calls, failing terminators) run on the real VM with real WASM Aspects bound; for each scenario a provider failure is injected at every join-point firing position in turn x 4 error kinds, plus trapping / gas-exhausting Aspects. Oracles: state at a failed frame's exit == copy taken at its entry snapshot; final state == pre-state + replay of exactly the mutations of frames that succeeded with all ancestors; the caller's next instruction sees flag 0.",
             "Trusts go-ethereum core/state (Copy, snapshots) as the state oracle; one injected fault per run; forks Byzantium..Shanghai.",
             "DESIGN.md §3 C04"),
+    "C18": ("exploration",
+            "differential callback-stream monitor (every argument of every debug-tracer callback) + byte-wise output comparison of 20 paired tracer configurations + Start/End, Enter/Exit balance automaton under injected join-point failures",
+            "The fork and go-ethereum v1.12.0 run the same generated in-domain program with full recorders; the callback sequences are compared argument by argument (pc, op, gas, cost, depth, stack, memory, return data, error class, from/to/input/gas/value, output/gasUsed). Each inherited tracer (struct x4, JSON x2, access-list, call x4, flatCall x4, prestate x2, 4byte, mux, noop) is attached on the fork and its upstream original on the reference, outputs compared byte-wise. Aspect-bound call trees with a failure injected at every firing position must keep Start/End and Enter/Exit balanced.",
+            "go-ethereum v1.12.0 tracers are the trusted originals; paired-tracer comparison uses Call/Create entry points (how a chain attaches tracers); access-list output compared as a sorted list (map order on both sides).",
+            "DESIGN.md §3 C18"),
 }
 
 # Properties not (yet) claimed. Reason must be current.
